@@ -194,6 +194,42 @@ fn handle(line: &str) -> String {
                 }
             }
         }
+        "filedigest" => {
+            // two sources of equal size and mtime but different content added at the same destination: every recorded file digest must be
+            // the SHA-256 of the content actually stored in the payload
+            use sha2::Digest;
+            let dir = std::env::temp_dir().join(format!("rpm-native-replay-{}", std::process::id()));
+            let _ = std::fs::create_dir_all(&dir);
+            let (a, b) = (dir.join("a"), dir.join("b"));
+            std::fs::write(&a, b"first").unwrap();
+            std::fs::write(&b, b"other").unwrap();
+            let t = std::time::SystemTime::UNIX_EPOCH + std::time::Duration::from_secs(1_600_000_000);
+            for f in [&a, &b] {
+                std::fs::File::options().write(true).open(f).unwrap().set_modified(t).unwrap();
+            }
+            let r = rpm::PackageBuilder::new("x", "1.0", "MIT", "noarch", "d")
+                .compression(rpm::CompressionType::None)
+                .with_file(&a, rpm::FileOptions::new("/d/f"))
+                .and_then(|bld| bld.with_file(&b, rpm::FileOptions::new("/d/f")))
+                .and_then(|bld| bld.build());
+            let _ = std::fs::remove_dir_all(&dir);
+            match r {
+                Err(_) => "build-err".to_string(),
+                Ok(pkg) => {
+                    let mut bad = 0;
+                    let mut n = 0;
+                    for f in pkg.files().unwrap() {
+                        let f = f.unwrap();
+                        n += 1;
+                        let want: String = sha2::Sha256::digest(&f.content).iter().map(|x| format!("{:02x}", x)).collect();
+                        if f.metadata.digest.as_ref().map(|d| d.as_hex().to_string()) != Some(want) || f.metadata.size != f.content.len() {
+                            bad += 1;
+                        }
+                    }
+                    if bad == 0 { format!("ok files={}", n) } else { format!("bad {} of {} files record a digest/size that is not that of their content", bad, n) }
+                }
+            }
+        }
         "with_file" => {
             // <hex destination>: PackageBuilder::with_file on an existing source file with that destination
             let dest = unhex(p[1]);
@@ -250,6 +286,48 @@ fn handle(line: &str) -> String {
                         }
                         format!("{} {}", out, n)
                     }
+                },
+            }
+        }
+        "extract" => {
+            // <hex package>: extract into <scratch>/jail/t; report panics and anything that appears, changes or vanishes in <scratch> outside jail/t
+            let b = unhex_bytes(p[1]);
+            match rpm::Package::parse(&mut &b[..]) {
+                Err(_) => "parse-err".to_string(),
+                Ok(pkg) => {
+                    let base = std::env::temp_dir().join(format!("rpm-native-replay-{}-{}", std::process::id(), EXTRACT_SEQ.fetch_add(1, std::sync::atomic::Ordering::SeqCst)));
+                    let _ = std::fs::remove_dir_all(&base);
+                    let jail = base.join("jail");
+                    std::fs::create_dir_all(jail.join("outside")).unwrap();
+                    std::fs::write(jail.join("outside").join("victim"), b"victim").unwrap();
+                    std::fs::write(base.join("victim"), b"victim").unwrap();
+                    let before = snapshot(&base, &jail.join("t"));
+                    let target = jail.join("t");
+                    let r = std::panic::catch_unwind(std::panic::AssertUnwindSafe(|| pkg.extract(&target)));
+                    let after = snapshot(&base, &jail.join("t"));
+                    let inside = snapshot(&jail.join("t"), std::path::Path::new("/nonexistent"));
+                    let _ = std::fs::remove_dir_all(&base);
+                    let verdict = match r {
+                        Err(_) => "panic".to_string(),
+                        Ok(Ok(())) => "ok".to_string(),
+                        Ok(Err(e)) => format!("err {}", format!("{:?}", e).split(|c: char| !c.is_alphanumeric()).next().unwrap_or("")),
+                    };
+                    if before != after {
+                        let diff: Vec<String> = after.iter().filter(|x| !before.contains(x)).chain(before.iter().filter(|x| !after.contains(x))).cloned().collect();
+                        format!("escaped {} [{}] outside: {}", verdict, inside.join(","), diff.join(","))
+                    } else {
+                        format!("{} [{}]", verdict, inside.join(","))
+                    }
+                }
+            }
+        }
+        "file_entries" => {
+            let b = unhex_bytes(p[1]);
+            match rpm::PackageMetadata::parse(&mut &b[..]) {
+                Err(_) => "parse-err".to_string(),
+                Ok(m) => match m.get_file_entries() {
+                    Ok(v) => format!("ok {}", v.iter().map(|x| x.size.to_string()).collect::<Vec<_>>().join(",")),
+                    Err(_) => "err".to_string(),
                 },
             }
         }
@@ -426,6 +504,37 @@ fn hexb(b: &[u8]) -> String {
         return "-".to_string();
     }
     b.iter().map(|x| format!("{:02x}", x)).collect()
+}
+
+static EXTRACT_SEQ: std::sync::atomic::AtomicUsize = std::sync::atomic::AtomicUsize::new(0);
+
+/// every entry below `root` except what lies below `skip`: "relative path:kind:mode:content-or-link"
+fn snapshot(root: &std::path::Path, skip: &std::path::Path) -> Vec<String> {
+    use std::os::unix::fs::PermissionsExt;
+    fn walk(root: &std::path::Path, dir: &std::path::Path, skip: &std::path::Path, out: &mut Vec<String>) {
+        let Ok(rd) = std::fs::read_dir(dir) else { return };
+        for e in rd.flatten() {
+            let p = e.path();
+            if p == skip {
+                continue;
+            }
+            let Ok(md) = p.symlink_metadata() else { continue };
+            let rel = p.strip_prefix(root).unwrap().to_string_lossy().to_string();
+            let mode = md.permissions().mode() & 0o7777;
+            if md.file_type().is_symlink() {
+                out.push(format!("{}:l:{}", rel, std::fs::read_link(&p).map(|x| x.to_string_lossy().to_string()).unwrap_or_default()));
+            } else if md.is_dir() {
+                out.push(format!("{}:d:{:o}", rel, mode));
+                walk(root, &p, skip, out);
+            } else {
+                out.push(format!("{}:f:{:o}:{}", rel, mode, hexb(&std::fs::read(&p).unwrap_or_default())));
+            }
+        }
+    }
+    let mut out = Vec::new();
+    walk(root, root, skip, &mut out);
+    out.sort();
+    out
 }
 
 fn main() {
